@@ -136,8 +136,8 @@ def run(s):
     K.item_grid(s, 2, pretties=(False,), full=False, inters=(True,))
     K.fuzz(s, 150 if q else 6000, K.kind_weights(1, 1, 0.4, 0.02), steps=(10, 40), text='hostile',
            timing='any', shape_weights=(0.5, 0.2, 0.25, 0.05), selfref=0.25, blank_carried=0.06)
-    hostile_id_histories(s, 60 if q else 2500)
-    nonstrict_collections(s, 60 if q else 2500)
+    hostile_id_histories(s, 120 if q else 2500)
+    nonstrict_collections(s, 200 if q else 5000)
     classify_docs(s, 800 if q else 40000)
 
 
